@@ -19,6 +19,11 @@
 (*   ~fired => the observation is exactly Document!Step's                  *)
 (* "chaos" events (random failure subsets over a whole behaviour) are      *)
 (* checked for the state-independent part only.                            *)
+(* "rfault" events: deserializeJson / deserializeMsgPack of an input whose *)
+(* fault-free result JsonReader.tla / MsgPack.tla computed, run with a     *)
+(* failure at every allocator call: NoMemory and overflowed() when it      *)
+(* fired, the specification's result otherwise, a well-formed document     *)
+(* and a clean ledger always.                                              *)
 (***************************************************************************)
 EXTENDS Document, Json, IOUtils
 
@@ -113,12 +118,30 @@ Fault(ev) ==
                         => Strip(ev.obs.refs[r].v) = Get(S.docs[S.refs[r].d].root, S.refs[r].p),
                      "a reference outside the modified path no longer designates its value")
 
+\* a deserializer run under an injected allocation failure (harness/reader_replay.cpp --faults):
+\* [fmt, kind, mode, k, n, fired, code, expcode (what JsonReader.tla / MsgPack.tla give for the input),
+\*  ovf, equal (document = the specification's value, when both say Ok), insp, live, works, ledger]
+ReaderFault(ev) ==
+  /\ Require(ev.insp = <<>>, "document not well formed after a deserialization under allocation failure")
+  /\ Require(ev.live = 0, "blocks still allocated after clear()")
+  /\ Require(ev.works, "document does not work normally after clear()")
+  /\ Require(ev.ledger, "blocks left, released twice or released through a foreign allocator")
+  /\ IF ev.fired
+     THEN \* reported: NoMemory, or the error the input deserves anyway (which of two applicable errors comes
+          \* out is not prescribed: "{/}" fails to allocate the key buffer and then meets the wrong character)
+          /\ Require(ev.code = "NoMemory" \/ (ev.expcode # "Ok" /\ ev.code = ev.expcode),
+                     "an allocation failed but the deserializer reported neither NoMemory nor the input's own error")
+          /\ Require(ev.ovf, "an allocation failed but overflowed() is false")
+     ELSE /\ Require(ev.code = ev.expcode, "no failure fired but the result code differs from the specification's")
+          /\ Require(ev.equal, "no failure fired but the document differs from the specification's value")
+          /\ Require(ev.code = "Ok" => ~ev.ovf, "Ok but overflowed()")
+
 Init == l = 1
 Next ==
   /\ l <= Len(TraceLog)
   /\ l' = l + 1
   /\ LET ev == TraceLog[l] IN
-       IF ev.e = "fault" THEN Fault(ev) ELSE Common(ev)
+       IF ev.e = "fault" THEN Fault(ev) ELSE IF ev.e = "rfault" THEN ReaderFault(ev) ELSE Common(ev)
 
 TraceSpec == Init /\ [][Next]_l
 TraceInv == TRUE
